@@ -10,6 +10,10 @@ CLAIMS = {
   "Every function of filter_optimizer.go carries a contract stating that the key region of its result covers every key on which the predicate can hold (ghost key, documented operator semantics as oracle); the obligations are generated from the go/ssa form of the working tree on every run and discharged by SMT for all predicate trees, literals and keys, without bound.",
   TRUST + "The sem_* oracle axioms are transcribed from the README. The link from scan type to the keys a plan actually reads is the subject of C18/C01, not of this check.",
   "DESIGN.md section 5, C02"),
+ "C01": ("proof",
+  "Row mode: the evaluator (BinaryOpExpr.Execute and its helpers, NotExpr, literals, key/value) is proved to compute the documented meaning of = != ^= & | > >= < <= + - * / ! from the values of the operands, with exact definedness conditions; Filter is proved to return `evaluates to true`; the four scan plans are proved to return exactly the next filtered pair in cursor order, to skip only pairs that fail the filter, and to report the end only when the region is exhausted. 40 functions; obligations from the go/ssa form of the working tree, discharged by z3 / cvc5.",
+  TRUST + "Regular expressions, IN, BETWEEN, scalar functions and the batch-mode twins are not covered (thin assumed contracts, listed). Evaluation is a function of expression and pair (A-EVAL); cursor behaviour is A-STORE. Composition over calls is argued on paper.",
+  "DESIGN.md section 5, C01"),
  "C05": ("proof",
   "Row mode: an alias reference is proved to evaluate exactly as its defining expression for every pair, cache content and cache switch; the per-row cache is proved invisible through a coherence invariant (every entry is the value of its alias on the current pair) that Expression.Execute requires and preserves, that the four row-mode scans establish for every pair before filtering it (this failed on the pinned tree: defect D5, repaired) and hand over with the returned pair, and that ProjectionPlan uses to return one column per field, in order, each the field's value on that pair.",
   TRUST + "Batch mode (chunk caches) and aliases in ORDER BY / GROUP BY are not covered. That every reference points at the select field of its name (A-ALIAS) and that evaluation is a function of expression and pair (A-EVAL) are assumptions.",
